@@ -2,8 +2,8 @@
 C05 — hybrid system: one PTI/PTO, consistent on the electric and the shaft side.
 `f`, `g` are the two conversions of the machine (C06); `ε`-accuracy of the default interpolated
 inverse is a hypothesis here (C06 proves 1 % under the knot contract; 0.5 % is validated per case).
-Domain: the PTI/PTO is in given-power mode on the electric side (with the balancing mode the second
-electric pass would re-balance its input — the "balancing unit" role, not "the PTI carries the shaft").
+`step`: a PTI/PTO in given-power mode on the electric side; `stepBalancing`: one whose electrical power
+the electrical balance decides (load-sharing mode 0).
 -/
 import FeemsProofs.C06
 import FeemsModel.Model.Hybrid
@@ -18,64 +18,99 @@ variable (f g : Rat → Rat) (x0 L : Rat)
 
 /-- Final state with a second electric pass (some step of the series is full-PTI). -/
 theorem final_with_second_pass (full : Bool) :
-    (step f g x0 L full true).elecIn = f (if full then L else g x0) ∧
-    (step f g x0 L full true).shaftOut = g (f (if full then L else g x0)) := by
+    (step f g x0 L full true false).elecIn = f (if full then L else g x0) ∧
+    (step f g x0 L full true false).shaftOut = g (f (if full then L else g x0)) := by
   simp [step]
 
+/-- Final state when the shaft lines are balanced once more after the second electric pass. -/
+theorem final_with_rebalance (full : Bool) :
+    (step f g x0 L full true true).shaftOut = (if full then L else g (f (g x0))) ∧
+    (step f g x0 L full true true).elecIn = f (if full then L else g (f (g x0))) := by
+  cases full <;> simp [step]
+
 /-- Final state without a second pass. -/
-theorem final_without_second_pass :
-    (step f g x0 L false false).elecIn = f (g x0) ∧ (step f g x0 L false false).shaftOut = g x0 := by
+theorem final_without_second_pass (rb : Bool) :
+    (step f g x0 L false false rb).elecIn = f (g x0) ∧ (step f g x0 L false false rb).shaftOut = g x0 := by
   simp [step]
 
 /-- **Electric side.** The electric balance (C01) was computed with `elecUsed`; the PTI/PTO's final
 electrical power differs from it by the round-trip error of the machine, and not at all when the
-second pass ran. -/
-theorem electric_consistency (full anyFull : Bool) :
-    (step f g x0 L full anyFull).elecIn - (step f g x0 L full anyFull).elecUsed =
-      if anyFull then 0 else f (if full then L else g x0) - x0 := by
-  cases anyFull <;> simp [step]
+second electric pass was the last pass or the step is full-PTI. -/
+theorem electric_consistency (full anyFull rb : Bool) :
+    (step f g x0 L full anyFull rb).elecIn - (step f g x0 L full anyFull rb).elecUsed =
+      if anyFull then (if rb && !full then f (g (f (g x0))) - f (g x0) else 0)
+      else f (if full then L else g x0) - x0 := by
+  cases anyFull <;> cases rb <;> cases full <;> simp [step]
 
 /-- **Shaft side.** The shaft balance (C04) was computed with `shaftUsed`; the final shaft power
-differs from it by the round-trip error, and not at all without a second pass. -/
-theorem shaft_consistency (full anyFull : Bool) :
-    (step f g x0 L full anyFull).shaftOut - (step f g x0 L full anyFull).shaftUsed =
-      if anyFull then g (f (if full then L else g x0)) - (if full then L else g x0) else 0 := by
-  cases anyFull <;> simp [step]
+differs from it by the round-trip error, and not at all when a shaft balance was the last pass. -/
+theorem shaft_consistency (full anyFull rb : Bool) :
+    (step f g x0 L full anyFull rb).shaftOut - (step f g x0 L full anyFull rb).shaftUsed =
+      if anyFull && !rb then g (f (if full then L else g x0)) - (if full then L else g x0) else 0 := by
+  cases anyFull <;> cases rb <;> cases full <;> simp [step]
 
 /-- Hence both balances hold to within the machine's round-trip accuracy `ε`. -/
-theorem balances_within (ε : Rat) (full anyFull : Bool)
+theorem balances_within (ε : Rat) (full anyFull rb : Bool)
     (hfg : ∀ x, |f (g x) - x| ≤ ε) (hgf : ∀ p, |g (f p) - p| ≤ ε) (hfull : full = true → anyFull = true) :
-    |(step f g x0 L full anyFull).elecIn - (step f g x0 L full anyFull).elecUsed| ≤ ε ∧
-    |(step f g x0 L full anyFull).shaftOut - (step f g x0 L full anyFull).shaftUsed| ≤ ε := by
+    |(step f g x0 L full anyFull rb).elecIn - (step f g x0 L full anyFull rb).elecUsed| ≤ ε ∧
+    |(step f g x0 L full anyFull rb).shaftOut - (step f g x0 L full anyFull rb).shaftUsed| ≤ ε := by
   have hε : 0 ≤ ε := le_trans (abs_nonneg _) (hfg 0)
   rw [electric_consistency, shaft_consistency]
   cases anyFull
   · have : full = false := by cases full <;> simp_all
     subst this
-    simp only [Bool.false_eq_true, if_false, sub_self, abs_zero]
+    simp only [Bool.false_eq_true, if_false, sub_self, abs_zero, Bool.false_and]
     exact ⟨hfg x0, hε⟩
-  · simp only [if_true, abs_zero]
-    exact ⟨hε, hgf _⟩
+  · cases rb <;> cases full <;> simp only [if_true, abs_zero, Bool.true_and, Bool.not_true, Bool.not_false,
+      Bool.false_eq_true, if_false, sub_self, Bool.and_false, Bool.and_true]
+    · exact ⟨hε, hgf _⟩
+    · exact ⟨hε, hgf _⟩
+    · exact ⟨hfg _, hε⟩
+    · exact ⟨hε, hε⟩
 
 /-- **Loss.** The two powers are a pair of the machine's own conversion: through `g` when the
 electric side was computed last, through `f` otherwise — they differ by the conversion loss at that
 load and by nothing else. -/
-theorem loss_pair (full anyFull : Bool) :
-    (anyFull = true → (step f g x0 L full anyFull).shaftOut = g (step f g x0 L full anyFull).elecIn) ∧
-    (anyFull = false → (step f g x0 L full anyFull).elecIn = f (step f g x0 L full anyFull).shaftOut) := by
-  cases anyFull <;> simp [step]
+theorem loss_pair (full anyFull rb : Bool) :
+    (anyFull = true → rb = false → (step f g x0 L full anyFull rb).shaftOut = g (step f g x0 L full anyFull rb).elecIn) ∧
+    ((anyFull = false ∨ rb = true) → (step f g x0 L full anyFull rb).elecIn = f (step f g x0 L full anyFull rb).shaftOut) := by
+  cases anyFull <;> cases rb <;> simp [step]
 
 /-- **Full PTI.** The electrical side supplies the whole shaft load plus the loss:
 `L / efficiency(L / rated)` for the machine's characteristic `η`. -/
-theorem full_pti (η inv : Rat → Rat) (rated : Rat) (g : Rat → Rat) (hL : 0 ≤ L) :
-    (step (inFromOut η inv rated) g x0 L true true).elecIn = L / effHat η (rabs L / rated) ∧
-    L ≤ (step (inFromOut η inv rated) g x0 L true true).elecIn ∧
-    (step (inFromOut η inv rated) g x0 L true true).shaftUsed = L := by
-  have h1 : (step (inFromOut η inv rated) g x0 L true true).elecIn = inFromOut η inv rated L := by simp [step]
+theorem full_pti (η inv : Rat → Rat) (rated : Rat) (g : Rat → Rat) (hL : 0 ≤ L) (rb : Bool) :
+    (step (inFromOut η inv rated) g x0 L true true rb).elecIn = L / effHat η (rabs L / rated) ∧
+    L ≤ (step (inFromOut η inv rated) g x0 L true true rb).elecIn ∧
+    (step (inFromOut η inv rated) g x0 L true true rb).shaftUsed = L := by
+  have h1 : (step (inFromOut η inv rated) g x0 L true true rb).elecIn = inFromOut η inv rated L := by
+    cases rb <;> simp [step]
   rw [h1]
   unfold inFromOut
   rw [if_pos hL]
-  exact ⟨rfl, C06.fwd_supply_ge_delivery η rated L hL, by simp [step]⟩
+  exact ⟨rfl, C06.fwd_supply_ge_delivery η rated L hL, by cases rb <;> simp [step]⟩
+
+/-! ### A PTI/PTO that shares the bus load (load-sharing mode 0) -/
+
+/-- Its shaft line is balanced with its final shaft power, its two powers are a conversion pair, and
+the electric balance was computed with a share that differs from its final electrical power by the
+machine's round-trip error only. -/
+theorem balancing_consistent (xb1 xb2 : Rat) (anyFull : Bool) (ε : Rat) (hfg : ∀ x, |f (g x) - x| ≤ ε) :
+    (stepBalancing f g xb1 xb2 anyFull).shaftOut = (stepBalancing f g xb1 xb2 anyFull).shaftUsed ∧
+    (stepBalancing f g xb1 xb2 anyFull).elecIn = f (stepBalancing f g xb1 xb2 anyFull).shaftOut ∧
+    |(stepBalancing f g xb1 xb2 anyFull).elecIn - (stepBalancing f g xb1 xb2 anyFull).elecUsed| ≤ ε := by
+  cases anyFull <;> simp [stepBalancing, hfg]
+
+/-- As found (before the repair of D21) the shaft line of such a machine stayed balanced with the
+share of the first electric pass: the gap is the whole change of its shaft power between the passes. -/
+theorem balancing_legacy_gap (xb1 xb2 : Rat) :
+    (stepBalancingLegacy f g xb1 xb2 true).shaftOut - (stepBalancingLegacy f g xb1 xb2 true).shaftUsed
+      = g xb2 - g xb1 := by
+  simp [stepBalancingLegacy]
+
+/-- … for instance 90 kW on a machine with 90 % efficiency whose share moves from −500 to −400 kW. -/
+example : (stepBalancingLegacy (fun p => p / (9 / 10)) (fun x => x * (9 / 10)) (-500) (-400) true).shaftOut
+    - (stepBalancingLegacy (fun p => p / (9 / 10)) (fun x => x * (9 / 10)) (-500) (-400) true).shaftUsed = 90 := by
+  decide +kernel
 
 /-- **Same machine.** A hybrid system is accepted exactly when both sides have PTI/PTO units, the
 same number of them, and every electric-side unit is also on the mechanical side. -/
@@ -90,9 +125,9 @@ theorem same_machine (e m : List Nat) :
 
 /-! ### Non-vacuity: a machine with 90 % efficiency each way, exact inverse -/
 
-example : step (fun p => p / (9 / 10)) (fun x => x * (9 / 10)) 500 800 false false =
+example : step (fun p => p / (9 / 10)) (fun x => x * (9 / 10)) 500 800 false false false =
       ⟨500, 450, 500, 450⟩ ∧
-    (step (fun p => p / (9 / 10)) (fun x => x * (9 / 10)) 500 800 true true).shaftUsed = 800 := by
+    (step (fun p => p / (9 / 10)) (fun x => x * (9 / 10)) 500 800 true true false).shaftUsed = 800 := by
   constructor
   · decide +kernel
   · decide +kernel
